@@ -147,9 +147,65 @@ impl C17 {
             }
         }
         if !all_plain {
-            // with transfer-fee tokens the intermediate amount is charged once in a two-hop and twice in two single swaps:
-            // the equivalence is stated for the amounts the pools see and is checked on plain tokens only
+            // With transfer-fee tokens the intermediate amount is charged once in a two-hop and twice in two single swaps, so
+            // the trader-side equivalence does not carry over. The pool side does: each pool must end exactly where a single
+            // exact-in swap leaves it whose input is what that pool's vault received in the two-hop.
             cov.eval(format!("{}|transfer_fee_world|ok={}", c.name(), two_hop_ok));
+            if let (true, true, Some(post)) = (two_hop_ok, a.is_input, two_hop_post) {
+                let epoch = rt::with_ctx(|cx| cx.clock.epoch);
+                for (leg, sa, wk, pool, dir, lim) in [(1u8, &lg.sa1, lg.w1, &lg.s1, a.a_to_b_one, a.limit_one), (2u8, &lg.sa2, lg.w2, &lg.s2, a.a_to_b_two, a.limit_two)] {
+                    let (vin, mint_in, user_in) = if dir { (pool.vault_a, pool.mint_a, sa.owner_a) } else { (pool.vault_b, pool.mint_b, sa.owner_b) };
+                    if user_in == Pubkey::default() {
+                        continue;
+                    }
+                    let arrived = token_amount(post, &vin) as i128 - token_amount(pre, &vin) as i128;
+                    if arrived <= 0 {
+                        continue;
+                    }
+                    // smallest amount the trader must send so that exactly `arrived` reaches the vault
+                    let g = |x: u64| -> u128 { (x - crate::world::transfer_fee_of(pre, &mint_in, epoch, x).min(x)) as u128 };
+                    let (mut lo, mut hi) = (arrived as u64, u64::MAX);
+                    if g(hi) < arrived as u128 {
+                        continue;
+                    }
+                    while lo < hi {
+                        let mid = lo + (hi - lo) / 2;
+                        if g(mid) >= arrived as u128 { hi = mid } else { lo = mid + 1 }
+                    }
+                    if g(lo) != arrived as u128 {
+                        continue; // not every amount can arrive exactly (fee plateaus)
+                    }
+                    let mut f = pre.clone();
+                    // the trader holds enough of the input token on the copy
+                    if let Some(acc) = f.accts.get_mut(&user_in) {
+                        let mut d = (*acc.data).clone();
+                        d[64..72].copy_from_slice(&u64::MAX.to_le_bytes());
+                        acc.data = std::rc::Rc::new(d);
+                    }
+                    // leg one is given the amount the trader specified (it may stop at its price limit, having moved through
+                    // empty ranges); leg two always consumes exactly what arrived
+                    let amount = if leg == 1 { a.amount } else { lo };
+                    let args = SwapArgs { amount, other_amount_threshold: 0, sqrt_price_limit: lim, amount_specified_is_input: true, a_to_b: dir };
+                    let r = run(&mut f, ix::swap_v2(sa, &args, &[]));
+                    cov.probe("transfer_fee_pool_side_equivalence");
+                    if !r.ok {
+                        out.push(viol("accepted_failing_leg", idx, format!("two-hop succeeded but leg {} as a single swap_v2 priced on what its vault received ({}) fails: {:?}", leg, arrived, r.custom())));
+                        return;
+                    }
+                    let mut keys: Vec<Pubkey> = vec![wk, sa.pool.oracle];
+                    keys.extend_from_slice(&sa.tick_arrays);
+                    for k in keys {
+                        if f.data(&k) != post.data(&k) {
+                            let (da, db) = (f.data(&k).map(|d| d.to_vec()).unwrap_or_default(), post.data(&k).map(|d| d.to_vec()).unwrap_or_default());
+                            let first = da.iter().zip(db.iter()).position(|(x, y)| x != y);
+                            out.push(viol("pool_side_state_differs", idx, format!("account {} of pool {} differs (first differing byte {:?}, lengths {} / {}) between the two-hop and a single swap_v2 whose vault receipt is the same ({} of the input token, sent {}); prices pre {:?} two-hop {:?} single {:?}; single vault receipt {}; args {:?}", k, leg, first, da.len(), db.len(), arrived, lo,
+                                pre.data(&wk).and_then(decode::pool).map(|p| p.sqrt_price), post.data(&wk).and_then(decode::pool).map(|p| p.sqrt_price), f.data(&wk).and_then(decode::pool).map(|p| p.sqrt_price),
+                                token_amount(&f, &vin) as i128 - token_amount(pre, &vin) as i128, (a.amount, a.is_input, a.a_to_b_one, a.a_to_b_two, a.limit_one, a.limit_two))));
+                            return;
+                        }
+                    }
+                }
+            }
             return;
         }
         // fork B: the two legs as single swaps
